@@ -218,6 +218,21 @@ fn directed_ops(rep: &mut Report, only: Option<&str>) {
             ],
         ));
     }
+    // sessions whose only effect on the string pool is a reference count going up or down
+    scen.push((
+        "reference-count-only-sessions".into(),
+        vec![
+            Op::CreateTable { name: "T".into(), cols: kv.clone() },
+            Op::CreateTable { name: "U".into(), cols: kv.clone() },
+            Op::Insert { table: "T".into(), rows: vec![vec![V::Int(1), V::s("t0x1 shared")], vec![V::Int(2), V::s("t0x2 other")]] },
+            Op::Insert { table: "U".into(), rows: vec![vec![V::Int(1), V::s("t0x1 shared")]] },
+            Op::Insert { table: "U".into(), rows: vec![vec![V::Int(2), V::s("t0x1 shared")], vec![V::Int(3), V::s("t0x2 other")]] },
+            Op::Delete { table: "T".into(), cond: None },
+            Op::Update { table: "U".into(), sets: vec![("V".into(), V::s("t0x2 other"))], cond: Some(em::MExpr::Bin(em::Bin::Eq, Box::new(em::MExpr::Col("K".into())), Box::new(em::MExpr::Lit(V::Int(1))))) },
+            Op::Delete { table: "U".into(), cond: Some(em::MExpr::Bin(em::Bin::Eq, Box::new(em::MExpr::Col("K".into())), Box::new(em::MExpr::Lit(V::Int(3))))) },
+            Op::Insert { table: "T".into(), rows: vec![vec![V::Int(5), V::s("t0x5 new")]] },
+        ],
+    ));
     let mon = monitors();
     for (name, ops) in scen {
         if only.map(|o| o != name).unwrap_or(false) {
